@@ -25,7 +25,7 @@ ASSUMPTIONS = ["CPython may switch threads between any two of the instrumented o
                "end of a peer's stream is signalled the way the loop itself exits: the thread's exit event is set and recv raises TimeoutError"]
 MAG = rp.MAGIC["mainnet"]
 HANDLED = (b"version", b"verack", b"ping")
-KINDS = ["ping", "version", "verack", "inv", "addr", "unknown", "ping", "inv", "ping0", "pingmax", "inv_same", "inv_same", "unknown_same"]
+KINDS = ["ping", "version", "verack", "inv", "addr", "unknown", "ping", "inv", "ping0", "pingmax", "inv_same", "inv_same", "unknown_same", "addr_max"]
 
 SMALL_SCENARIOS = [
     [["ping", "inv"], ["inv", "ping"]],
@@ -69,6 +69,15 @@ def build_message(kind, peer, seq):
         sv, ipb = b"\x01" + b"\x00" * 7, b"\x00" * 10 + b"\xff\xff" + bytes([10, 0, peer, seq])
         p = rp.addr_payload([(t, sv, ipb, 8333)])
         return b"addr", p, {"addrs": [{"time": t, "services": sv, "ip_addr": ipb, "port": 8333}]}, None
+    if kind == "addr_max":
+        # the largest addr message the protocol allows (1000 entries, a getaddr answer): still an ordinary queued message
+        ents, exp = [], []
+        for j in range(1000):
+            t = 1600000000 + uid * 1000 + j
+            sv, ipb = b"\x01" + b"\x00" * 7, b"\x00" * 10 + b"\xff\xff" + bytes([10, peer, j >> 8, j & 255])
+            ents.append((t, sv, ipb, 8333))
+            exp.append({"time": t, "services": sv, "ip_addr": ipb, "port": 8333})
+        return b"addr", rp.addr_payload(ents), {"addrs": exp}, None
     if kind == "inv_same":
         h = b"\x22" * 32
         p = rp.inv_payload([("MSG_BLOCK", h)])
